@@ -116,6 +116,7 @@ fn real_main() {
         "replay-rich" => p_rich::replay(&rest),
         "drive-rich" => p_rich::drive(&rest),
         "replay-serde" => p_serde::replay(&rest),
+        "replay-casts" => p_serde::replay_casts(&rest),
         "drive-serde" => p_serde::drive(&rest),
         "job" => {
             // run one job given as JSON on the command line, in process (for replay files)
